@@ -144,7 +144,9 @@ def parseTransport (tr : String) : Option (InnerInfo × Bool) :=
   match tr.splitOn "-" with
   | base :: flags =>
     let inner? : Option InnerInfo := if base = "tcp" then some .tcp else if base = "duplex" then some .other else none
-    if flags.all (fun f => f = "lazy" || f = "x2" || f = "par") then
+    -- `-native`: Endpoint::connect()/connect_lazy() with tonic's HttpConnector (through a
+    -- recording proxy); `-cto`: connect_timeout set. Same decision logic.
+    if flags.all (fun f => f = "lazy" || f = "x2" || f = "par" || f = "native" || f = "cto") then
       inner?.map (fun i => (i, flags.contains "x2"))
     else none
   | [] => none
